@@ -226,14 +226,17 @@ func runPlan(c *core.Ctx, p *plan) error {
 		return err
 	}
 	lap("real")
-	if err := <-langCh; err != nil {
-		return err
-	}
+	langErr := <-langCh
 	lap("lang_variant_wait")
 
 	mc := <-mcCh
-	if mc.err != nil {
-		return mc.err
+	// nothing of this check runs any more: judge what was too slow under load, alone
+	starvedErr := resolveStarved(c)
+	for _, e := range []error{langErr, mc.err, starvedErr} {
+		if e != nil {
+			fs.report(c) // findings made so far stay visible next to the infrastructure error
+			return e
+		}
 	}
 	driftRuns := map[string]bool{}
 	for _, d := range st.Drift {
